@@ -125,7 +125,7 @@ impl Property for C06 {
         match tier {
             Tier::Quick => Budget {
                 seconds: 25,
-                max_cases: 40_000,
+                max_cases: 80_000,
             },
             Tier::Thorough => Budget {
                 seconds: 600,
